@@ -7,7 +7,8 @@
    over the candidates sorted as by fix 915e48e), the N-layer neighbourhood (Neighbour.nN_api, C08), common.Difference / Union / Unique (SetOps,
    C20, with their map-order oracles), and the loop skeleton of the fit (first iteration, error checks).
    Part 1: the order of sort.Strings and the picked voxel.     Part 2: skeleton of the fit.
-   Part 3: the corridor model over oracles and its theorems.    Part 4: executable instance (balanced-tree sets) = model, as sets.
+   Part 3: the corridor model over oracles and its theorems.    Part 4: executable instances (balanced-tree sets; 4b with the stateful
+   measuring loop and the replay of recorded distances) = model, as sets.
    Part 5: boolean checker on the implementation's observed output, proved sound; the model passes it. *)
 From Coq Require Import ZArith Lia List Bool String Ascii Permutation Sorting.Sorted RelationClasses Floats.
 From SID Require Import Base Str Ids Shift Neighbour SetOps.
@@ -677,6 +678,127 @@ Proof.
     intros s. rewrite Neighbour.unique_In, in_app_iff, !filter_In, not_mem_set_of,
       (SetOps.unique_spec String.eqb String.eqb_spec ord_q Pq), (SetOps.union_spec String.eqb String.eqb_spec ord_u Pu), filter_In,
       sort_strings_In, IC. tauto.
+Qed.
+
+(* ---- Part 4b: executable instance WITH the stateful measuring loop (used to replay the real loop at run time) ----
+   candidates = the list the measuring loop iterates over: box minus line, sorted (fix 915e48e); [] when the call fails before the loop *)
+Definition candidates (fit : string -> result (Z * Z)) (line : result (list string)) : list string :=
+  match line with
+  | Err => []
+  | Ok L =>
+      match pick L with
+      | None => []
+      | Some p =>
+          match fit p with
+          | Err => []
+          | Ok (H, V) =>
+              match nN_api L H V with
+              | Err => []
+              | Ok a => let sl := set_of L in sort_strings (filter (fun x => negb (SS.mem x sl)) a)
+              end
+          end
+      end
+  end.
+Definition corridor_run (fit : string -> result (Z * Z)) (St : Type) (st0 : St) (measure : St -> string -> result (bool * St))
+  (line : result (list string)) (skip : bool) : result (list string) :=
+  match line with
+  | Err => Err
+  | Ok L =>
+      match pick L with
+      | None => Err
+      | Some p =>
+          match fit p with
+          | Err => Err
+          | Ok (H, V) =>
+              match nN_api L H V with
+              | Err => Err
+              | Ok a =>
+                  let sl := set_of L in
+                  let cand := filter (fun x => negb (SS.mem x sl)) a in
+                  if skip then Ok (Neighbour.unique (cand ++ L))
+                  else match measure_all St measure st0 (sort_strings cand) with
+                       | Err => Err
+                       | Ok kept => Ok (Neighbour.unique (kept ++ L))
+                       end
+              end
+          end
+      end
+  end.
+
+(* the kept list depends on the candidates only through their multiset: the loop sees them sorted *)
+Theorem measure_all_sorted_perm St (measure : St -> string -> result (bool * St)) st0 c c' : Permutation c c' ->
+  measure_all St measure st0 (sort_strings c) = measure_all St measure st0 (sort_strings c').
+Proof. intros P. now rewrite (sort_strings_perm_eq c c' P). Qed.
+
+(* the stateful executable instance has the error flag and, up to order, the result of the model, for every map order and EVERY
+   state-dependent measure *)
+Theorem corridor_run_equiv ord_n ord_u ord_q fit St st0 measure line skip :
+  (forall l, Permutation (ord_n l) l) -> (forall l, Permutation (ord_u l) l) -> (forall l, Permutation (ord_q l) l) ->
+  match corridor_run fit St st0 measure line skip, corridor ord_n ord_u ord_q fit St st0 measure line skip with
+  | Ok r, Ok r' => Permutation r r'
+  | Err, Err => True
+  | _, _ => False
+  end.
+Proof.
+  intros Pn Pu Pq. unfold corridor_run, corridor. destruct line as [L|]; [|exact I]. destruct (pick L) as [p|]; [|exact I].
+  destruct (fit p) as [[H V]|]; [|exact I]. destruct (nN_api L H V) as [a|] eqn:Ea; [|exact I]. cbv zeta.
+  assert (IC : forall s, In s (SetOps.difference String.eqb (ord_n a) L) <-> In s a /\ ~ In s L).
+  { intros s. rewrite (SetOps.difference_spec String.eqb String.eqb_spec). split; intros [A B]; (split; [|exact B]).
+    - eapply Permutation_in; [apply Pn|exact A].
+    - eapply Permutation_in; [apply Permutation_sym, Pn|exact A]. }
+  destruct skip.
+  - apply NoDup_Permutation; [apply Neighbour.unique_NoDup|apply (SetOps.unique_NoDup String.eqb String.eqb_spec ord_q Pq)|].
+    intros s. rewrite Neighbour.unique_In, in_app_iff, filter_In, not_mem_set_of,
+      (SetOps.unique_spec String.eqb String.eqb_spec ord_q Pq), (SetOps.union_spec String.eqb String.eqb_spec ord_u Pu), IC. tauto.
+  - assert (PC : Permutation (filter (fun x => negb (SS.mem x (set_of L))) a) (SetOps.difference String.eqb (ord_n a) L)).
+    { destruct (nN_api_members _ _ _ _ Ea) as [Na _]. apply NoDup_Permutation.
+      - now apply NoDup_filter.
+      - apply SetOps.difference_NoDup. eapply Permutation_NoDup; [apply Permutation_sym, Pn|exact Na].
+      - intros s. rewrite filter_In, not_mem_set_of, IC. tauto. }
+    rewrite (sort_strings_perm_eq _ _ PC).
+    destruct (measure_all St measure st0 (sort_strings (SetOps.difference String.eqb (ord_n a) L))) as [kept|]; [|exact I].
+    apply NoDup_Permutation; [apply Neighbour.unique_NoDup|apply (SetOps.unique_NoDup String.eqb String.eqb_spec ord_q Pq)|].
+    intros s. rewrite Neighbour.unique_In, in_app_iff,
+      (SetOps.unique_spec String.eqb String.eqb_spec ord_q Pq), (SetOps.union_spec String.eqb String.eqb_spec ord_u Pu). tauto.
+Qed.
+(* what the measured run returns, in terms of the list handed to the measuring loop *)
+Theorem corridor_run_measured fit St st0 measure L r : corridor_run fit St st0 measure (Ok L) false = Ok r ->
+  exists kept, measure_all St measure st0 (candidates fit (Ok L)) = Ok kept /\
+    NoDup r /\ (forall s, In s r <-> In s kept \/ In s L) /\ (forall s, In s kept -> In s (candidates fit (Ok L)) /\ ~ In s L).
+Proof.
+  unfold corridor_run, candidates. destruct (pick L) as [p|]; [|discriminate]. destruct (fit p) as [[H V]|]; [|discriminate].
+  destruct (nN_api L H V) as [a|]; [|discriminate]. cbv zeta.
+  destruct (measure_all St measure st0 (sort_strings (filter (fun x => negb (SS.mem x (set_of L))) a))) as [kept|] eqn:Em; [|discriminate].
+  intros [= <-]. exists kept. split; [reflexivity|]. split; [apply Neighbour.unique_NoDup|]. split.
+  - intros s. now rewrite Neighbour.unique_In, in_app_iff.
+  - intros s Hs. pose proof (measure_all_incl St measure _ _ _ Em s Hs) as Hc. split; [exact Hc|].
+    apply sort_strings_In, filter_In in Hc. now apply not_mem_set_of.
+Qed.
+(* skip mode does not depend on the measure at all, and contains the measured result *)
+Theorem corridor_run_measured_subset fit St st0 measure line r : corridor_run fit St st0 measure line false = Ok r ->
+  exists r', corridor_run fit St st0 measure line true = Ok r' /\ forall s, In s r -> In s r'.
+Proof.
+  unfold corridor_run. destruct line as [L|]; [|discriminate]. destruct (pick L) as [p|]; [|discriminate].
+  destruct (fit p) as [[H V]|]; [|discriminate]. destruct (nN_api L H V) as [a|]; [|discriminate]. cbv zeta.
+  destruct (measure_all St measure st0 (sort_strings (filter (fun x => negb (SS.mem x (set_of L))) a))) as [kept|] eqn:Em; [|discriminate].
+  intros [= <-]. eexists. split; [reflexivity|]. intros s. rewrite !Neighbour.unique_In, !in_app_iff. intros [Hs|Hs]; [left|now right].
+  apply (measure_all_incl St measure _ _ _ Em) in Hs. exact (proj1 (sort_strings_In _ _) Hs).
+Qed.
+
+(* the run-time instance of the measure: the state is the list of answers the REAL loop gave when it was asked, with its one reused
+   closest.Measure, to measure exactly `candidates` in that order (oracle "mloop"); each answer is the distance of that candidate, or the
+   failure of its vertex call; the verdict is Go's `dist < radius` *)
+Definition replay (radius : float) (st : list (result float)) (_ : string) : result (bool * list (result float)) :=
+  match st with
+  | Ok d :: r => Ok ((d <? radius)%float, r)
+  | _ => Err
+  end.
+Theorem replay_all radius cs : forall ds, List.length ds = List.length cs ->
+  measure_all _ (replay radius) (map Ok ds) cs = Ok (map fst (filter (fun p => (snd p <? radius)%float) (combine cs ds))).
+Proof.
+  induction cs as [|c r IH]; intros [|d ds] Hl; try discriminate; [reflexivity|].
+  cbn [map measure_all replay combine filter snd]. rewrite IH by (cbn in Hl; congruence).
+  destruct (d <? radius)%float; reflexivity.
 Qed.
 
 (* ================= Part 5: the checker applied to the implementation's observed output ================= *)
